@@ -4,14 +4,20 @@
 (* All reals are kept in log space / fixed point, unit 2^-12:                     *)
 (*    le = ln eps,  leb = ln eps_bar,  hb = H-bar,  mu,  a = alpha / n_alpha       *)
 (* One transition with counter m (1-based, persisting across run() calls):        *)
-(*    hb' = (1 - 1/(m + t0)) hb + (delta - a)/(m + t0)                 t0 = 10     *)
-(*    if m <= n_discard:   (Adapt)                                                 *)
-(*        le'  = mu - sqrt(m)/gamma * hb'                              gamma = 0.05*)
-(*        leb' = (1 - m^-kappa) leb + m^-kappa le'                     kappa = 0.75*)
-(*    else:                (Freeze)   le' = leb,  leb' = leb                       *)
+(*    if m <= n_discard:   (Adapt)  k := k + 1  -- k counts the ADAPTING           *)
+(*        transitions of the chain: it is the iteration index of the dual averaging *)
+(*        hb'  = (1 - 1/(k + t0)) hb + (delta - a)/(k + t0)              t0 = 10     *)
+(*        le'  = mu - sqrt(k)/gamma * hb'                              gamma = 0.05*)
+(*        leb' = (1 - k^-kappa) leb + k^-kappa le'                     kappa = 0.75*)
+(*    else:                (Freeze)   le' = leb,  leb' = leb,  hb' = hb            *)
 (* run(n_collect, n_discard):  first call: eps0 from the doubling/halving          *)
-(* heuristic (a power of two); every call: mu = ln(10 eps), n_discard replaced,    *)
-(* m, eps, eps_bar, H-bar kept.                                                    *)
+(* heuristic (a power of two) and mu = ln(10 eps0), both fixed for the chain's     *)
+(* life; every call: n_discard replaced; m, k, eps, eps_bar, H-bar kept.  A call   *)
+(* whose warm-up reaches beyond the transitions made so far RESUMES the warm-up:   *)
+(* it continues the same dual averaging (next k), it does not start another one.   *)
+(* (The pinned code used m for k, moved H-bar on frozen transitions too and        *)
+(* re-derived mu at every call: a resumed warm-up then produced step sizes 0, inf   *)
+(* or 1e36 -- defect D14, repaired.)                                               *)
 (* The irrational factors come from certified interval tables (DualAvgTables),    *)
 (* so each relation is an INTERVAL the logged value has to fall into; Slack        *)
 (* accounts for the quantisation of the logged inputs.                             *)
